@@ -25,7 +25,7 @@
 (*         (1e-5 full scale^2), pk peeked decoder control state after the call  *)
 (***************************************************************************)
 EXTENDS Link, Json, IOUtils, TLC
-CONSTANTS M1, M2, M2After, M2Late, M2LateAfter, M3Num, M3Den, M4, M5, M5U, M5After, M6, M6After,      \* calibrated thresholds (centi-dB; M3 as a ratio of energies), R3
+CONSTANTS M1, M2, M2After, M2Late, M2LateAfter, M3Num, M3Den, M4, M5, M5U, M5After, M5Slack, M6, M6After,      \* calibrated thresholds (centi-dB; M3 as a ratio of energies), R3
           LevelFloorNeg,                  \* level clauses only above this level (negated centi-dB), R2
           MinFecFrames,                   \* M3 is judged per stream once that many frames were recovered
           CheckM3, CheckM4                \* clauses that calibration left in force
@@ -44,7 +44,7 @@ NoW == [on |-> FALSE]
 \* often the clause applied) - printed per stream for the calibration table, not judged
 NoObs == -100000
 NoAcc == [sf |-> 0, sp |-> 0, nf |-> 0, drift |-> 0, o1 |-> NoObs, o2 |-> NoObs, o2b |-> NoObs, o2c |-> NoObs, o4 |-> NoObs, n1 |-> 0, n2 |-> 0, n4 |-> 0,
-          o5 |-> NoObs, o5b |-> NoObs, n5 |-> 0, sf3 |-> 0, sp3 |-> 0, nf3 |-> 0, qpos |-> 0, o6 |-> NoObs, n6 |-> 0]
+          o5 |-> NoObs, o5b |-> NoObs, n5 |-> 0, sf3 |-> 0, sp3 |-> 0, nf3 |-> 0, qpos |-> 0, o6 |-> NoObs, n6 |-> 0, cng |-> <<>>, single |-> TRUE, n5b |-> 0]
 BigErr == 100000
 Mn(a, b) == IF a < b THEN a ELSE b
 Mx(a, b) == IF a > b THEN a ELSE b
@@ -141,9 +141,26 @@ Stationary == cf.sig <= 10
 \* pauses, is measured but not asserted: its concealment settles only 3 dB below the level.)
 \* Only once the stream has contained a pause (acc.qpos: end of the first packet the loss-free decoder rendered as
 \* silence): before that the comfort-noise estimate still holds the level of the stream's first frames.
+\* The speech layer's concealment decays to its COMFORT NOISE, which the decoder learns from the frames the encoder
+\* flagged as inactive (voice-activity bit 0 in the packet): acc.cng[i + 1] is the loudest level the loss-free twin
+\* rendered for an inactive-flagged packet up to packet i since the last packet rendered as silence (NoObs: none) - an
+\* upper bound of that estimate.  The clause: after M5After units of loss the concealed level is M5 below the pre-loss
+\* level OR within M5Slack of that comfort-noise reference.  Streams of single-frame packets only (the flags of the
+\* later frames of a multi-frame packet are not among the logged header bytes).
 M5Of == IF cf.sig = 14 THEN M5U ELSE M5
+CngRef == IF w.lastgood + 1 >= 1 /\ w.lastgood + 1 <= Len(acc.cng) THEN acc.cng[w.lastgood + 1] ELSE 0
 CleanSpeechLayer == /\ cf.sig \in {11, 14} /\ D!PlcMode(w.d) \in {MODE_SILK, MODE_HYBRID}
-                    /\ acc.qpos > 0 /\ w.pos - w.run >= acc.qpos
+                    /\ acc.qpos > 0 /\ w.pos - w.run >= acc.qpos /\ acc.single /\ w.lastgood >= 0
+M5Target == Mx(Level - M5Of, CngRef + M5Slack)
+\* a packet is flagged inactive if a voice-activity bit of its (first) frame is 0 (mid channel; side channel too in stereo)
+AnyInactive(p) ==
+  LET r == Parse(p, FALSE) IN
+  IF ~r.ok \/ TocMode(r.toc) = MODE_CELT \/ r.sizes[1] < 1 THEN TRUE
+  ELSE LET b == Byte(p, r.off + 1)
+           nf == SilkFramesPerFrame(r.toc) IN
+       \/ \E k \in 1..nf : BitOf(b, 8 - k) = 0
+       \/ (TocStereo(r.toc) /\ \E k \in 1..nf : BitOf(b, 7 - nf - k) = 0)
+
 \* strong in-band FEC: speech-only wideband mono stream, FEC on with >= 20 % announced loss, >= 32 kb/s,
 \* speech-like signal; an isolated loss (the packets before it arrived) recovered by a one-packet FEC call
 StrongFecStream == /\ cf.fm = MODE_SILK /\ cf.Fs = 16000 /\ cf.ch = 1 /\ cf.fec >= 1 /\ cf.loss >= 20 /\ cf.br >= 32000
@@ -186,8 +203,8 @@ RxWhy(e) ==
        THEN <<"concealment does not decay under sustained loss", e.lv, Level, w.run>>
   ELSE IF conceals /\ Stationary /\ Level >= LevelFloor /\ w.run >= M2LateAfter /\ D!PlcMode(w.d) = MODE_CELT /\ e.lv > Level - M2Late /\ e.lv > LevelFloor - M2Late
        THEN <<"concealment does not decay under sustained loss (late)", e.lv, Level, w.run>>
-  ELSE IF conceals /\ Level >= LevelFloor /\ w.run >= M5After /\ CleanSpeechLayer /\ e.lv > Level - M5Of /\ e.lv > LevelFloor - M5Of
-       THEN <<"speech-layer concealment of a clean signal does not decay under sustained loss", e.lv, Level, w.run>>
+  ELSE IF conceals /\ Level >= LevelFloor /\ w.run >= M5After /\ CleanSpeechLayer /\ e.lv > M5Target /\ e.lv > LevelFloor - M5Of
+       THEN <<"speech-layer concealment of a clean signal does not decay under sustained loss", e.lv, Level, CngRef, w.run>>
   ELSE <<>>
 
 TWhy(e) ==
@@ -225,9 +242,14 @@ Step(e) ==
          ELSE LET why == PkWhy(e) IN
               IF why # <<>> THEN Reject(why)
               ELSE /\ l' = l + 1 /\ UNCHANGED <<cf, w>>
-                   /\ acc' = IF acc.qpos = 0 /\ e.tl <= -9000 THEN [acc EXCEPT !.qpos = (e.i + 1) * cf.U] ELSE acc
+                   /\ LET prev == IF acc.cng = <<>> THEN 0 ELSE acc.cng[Len(acc.cng)]     \* (before any pause: unknown, 0 dBFS)
+                          p == PktOf(e)
+                          ref == IF e.tl <= -9000 THEN NoObs ELSE IF AnyInactive(p) THEN Mx(prev, e.tl) ELSE prev IN
+                      acc' = [acc EXCEPT !.qpos = IF acc.qpos = 0 /\ e.tl <= -9000 THEN (e.i + 1) * cf.U ELSE acc.qpos,
+                                         !.cng = Append(acc.cng, ref),
+                                         !.single = acc.single /\ Parse(p, FALSE).count = 1]
     [] e.k = "W" ->
-         /\ w' = [on |-> TRUE, pos |-> e.start * cf.U, run |-> 0, lv5 |-> NoLevels, since |-> 0, lost |-> FALSE, nlost |-> 0, paused |-> FALSE, best |-> BigErr, tailu |-> 0, d |-> DecOfPeek(e.pk)]
+         /\ w' = [on |-> TRUE, pos |-> e.start * cf.U, run |-> 0, lv5 |-> NoLevels, since |-> 0, lost |-> FALSE, nlost |-> 0, paused |-> FALSE, lastgood |-> e.start - 1, best |-> BigErr, tailu |-> 0, d |-> DecOfPeek(e.pk)]
          /\ l' = l + 1 /\ UNCHANGED <<cf, acc>>
     [] e.k = "rx" /\ e.t = "T" ->
          IF ~w.on THEN Reject(<<"harness: no receiver run">>)
@@ -237,6 +259,7 @@ Step(e) ==
                                      !.lv5 = <<e.tl, e.tl, e.tl, e.tl, e.tl>>, !.d = DecOfPeek(e.pk),
                                      !.best = IF w.lost /\ e.tl >= LevelFloor THEN Mn(w.best, e.e - e.tl) ELSE w.best,
                                      !.tailu = CapU(w.tailu + e.u),
+                                     !.lastgood = e.i + e.n - 1,
                                      !.paused = WorstRel(e, 1, w.since, 0, w.paused)[2]]
                    /\ acc' = IF ConvDomain /\ WorstRel(e, 1, w.since, 80, w.paused)[1] > NoObs
                               THEN [acc EXCEPT !.o6 = Mx(acc.o6, WorstRel(e, 1, w.since, 80, w.paused)[1]), !.n6 = IF acc.n6 < 1000000 THEN acc.n6 + 1 ELSE acc.n6] ELSE acc
@@ -256,6 +279,7 @@ Step(e) ==
                                      !.run = IF good THEN 0 ELSE CapU(w.run + units),
                                      !.since = IF good THEN CapU(w.since + units) ELSE 0,
                                      !.lost = w.lost \/ ~good,
+                                     !.lastgood = IF good THEN e.i ELSE w.lastgood,
                                      !.nlost = IF good \/ w.nlost >= 1000 THEN w.nlost ELSE w.nlost + 1,
                                      !.best = IF good THEN w.best ELSE BigErr,
                                      !.paused = IF good THEN (w.paused \/ (w.lost /\ e.tl <= -9000)) ELSE FALSE,
@@ -272,9 +296,10 @@ Step(e) ==
                                          !.n2 = IF c2 /\ acc.n2 < 1000000 THEN acc.n2 + 1 ELSE acc.n2,
                                          !.o2b = IF c2 /\ w.run >= 400 THEN Mx(acc.o2b, e.lv - Mx(Level, LevelFloor)) ELSE acc.o2b,
                                          !.o2c = IF c2 /\ w.run >= 800 THEN Mx(acc.o2c, e.lv - Mx(Level, LevelFloor)) ELSE acc.o2c,
-                                         !.o5 = IF c5 THEN Mx(acc.o5, e.lv - Mx(Level, LevelFloor)) ELSE acc.o5,
-                                         !.o5b = IF c5 /\ w.run >= 400 THEN Mx(acc.o5b, e.lv - Mx(Level, LevelFloor)) ELSE acc.o5b,
-                                         !.n5 = IF c5 /\ acc.n5 < 1000000 THEN acc.n5 + 1 ELSE acc.n5,
+                                         !.o5 = IF c5 /\ CngRef + M5Slack <= Level - M5Of THEN Mx(acc.o5, e.lv - Level) ELSE acc.o5,
+                                         !.o5b = IF c5 /\ CngRef + M5Slack > Level - M5Of THEN Mx(acc.o5b, e.lv - CngRef) ELSE acc.o5b,
+                                         !.n5b = IF c5 /\ CngRef + M5Slack > Level - M5Of /\ acc.n5b < 1000000 THEN acc.n5b + 1 ELSE acc.n5b,
+                                         !.n5 = IF c5 /\ CngRef + M5Slack <= Level - M5Of /\ acc.n5 < 1000000 THEN acc.n5 + 1 ELSE acc.n5,
                                          !.sf3 = IF r3 THEN acc.sf3 + e.fe ELSE acc.sf3,
                                          !.sp3 = IF r3 THEN acc.sp3 + e.pe ELSE acc.sp3,
                                          !.nf3 = IF r3 THEN acc.nf3 + 1 ELSE acc.nf3]
@@ -294,7 +319,7 @@ Step(e) ==
          \* (judged on the StrongFecStream sub-domain, isolated losses only)
          IF CheckM3 /\ acc.nf3 >= MinFecFrames /\ acc.sf3 > (acc.sp3 \div M3Den) * M3Num
          THEN Reject(<<"FEC is not far more accurate than concealment", acc.sf3, acc.sp3, acc.nf3>>)
-         ELSE /\ PrintT("OBS " \o ToString(<<cf.x, acc.nf, acc.sf, acc.sp, acc.o1, acc.n1, acc.o2, acc.n2, acc.o4, acc.n4, acc.o2b, acc.o2c, acc.o5, acc.o5b, acc.n5, acc.nf3, acc.sf3, acc.sp3, acc.o6, acc.n6>>))
+         ELSE /\ PrintT("OBS " \o ToString(<<cf.x, acc.nf, acc.sf, acc.sp, acc.o1, acc.n1, acc.o2, acc.n2, acc.o4, acc.n4, acc.o2b, acc.o2c, acc.o5, acc.o5b, acc.n5, acc.nf3, acc.sf3, acc.sp3, acc.o6, acc.n6, acc.n5b>>))
               /\ cf' = NoCfg /\ w' = NoW /\ acc' = [NoAcc EXCEPT !.drift = acc.drift] /\ l' = l + 1
     [] OTHER -> Reject(<<"unexpected event", e.k>>)       \* Hang, Canary, bad
 
